@@ -164,7 +164,7 @@ def families():
     from spyne.protocol.xml import XmlDocument
     from spyne.protocol.json import JsonDocument
     from spyne.protocol.yaml import YamlDocument
-    from spyne.protocol.msgpack import MessagePackDocument
+    from spyne.protocol.msgpack import MessagePackDocument, MessagePackRpc
     from spyne.protocol.http import HttpRpc
     import yaml, msgpack
     env = lambda ns: (lambda b: '<e:Envelope xmlns:e="%s" xmlns:tns="tns"><e:Body>%s</e:Body></e:Envelope>'
@@ -178,6 +178,10 @@ def families():
         Family('msgpack', MessagePackDocument, MessagePackDocument, 'application/x-msgpack',
                dump=lambda d: msgpack.packb({k.encode(): v for k, v in d.items()} if isinstance(d, dict) else d), kind='dict'),
         Family('http', HttpRpc, JsonDocument, None, kind='flat'),
+        # msgpack-rpc: [type, msgid, method, params]
+        Family('mprpc', MessagePackRpc, MessagePackRpc, 'application/x-msgpack',
+               dump=lambda d: msgpack.packb([0, 1, 'f', [d['f'].get('c'), d['f'].get('n'), d['f'].get('cs')]]
+                                            if isinstance(d, dict) and isinstance(d.get('f'), dict) else d), kind='dict'),
         # the answer (hence the fault, which quotes the offending text) travels in another family than the request
         Family('http_xmlout', HttpRpc, XmlDocument, None, kind='flat', out='xml'),
         Family('json_soapout', JsonDocument, Soap11, 'application/json', dump=lambda d: json.dumps(d).encode(), kind='dict', out='soap11'),
@@ -272,7 +276,7 @@ def corpus(fam, quick):
         for verb in ['HEAD', 'OPTIONS', 'TRACE', 'DELETE', '', 'get', 'BREW']:
             out.append(('verb %r' % verb, {'REQUEST_METHOD': verb, 'PATH_INFO': '/f', 'QUERY_STRING': 'n=1'}, b''))
     if fam.kind != 'flat':
-        for i, b in enumerate(fixed_random_bytes(300 if quick else 2000)):
+        for i, b in enumerate(fixed_random_bytes(120 if quick else 2000)):
             out.append(('rand%d' % i, {}, b))
         # what the transport announces about the body
         good = fam.wrap(xml_req(VAL)).encode() if fam.kind == 'xml' else fam.dump(fam.jreq(VAL))
@@ -292,6 +296,21 @@ def corpus(fam, quick):
             if fam.kind == 'dict' and fam.name.startswith('msgpack'):
                 out.append(('deep[%d' % n, {}, b'\x91' * n))
                 out.append(('deep{%d' % n, {}, b'\x81\xa1f' * n))
+        if fam.name == 'mprpc':
+            import msgpack
+            for label, doc in [('name-not-utf8', [0, 1, b'\xff\xfe', []]), ('type-notify', [2, 1, 'f', []]), ('type-response', [1, 1, 'f', []]),
+                               ('type-array', [[0], 1, 'f', []]), ('type-map', [{}, 1, 'f', []]), ('type-9', [9, 1, 'f', []]),
+                               ('params-nil', [0, 1, 'f', None]), ('no-params', [0, 1, 'f']), ('two', [0, 1]), ('five', [0, 1, 'f', [], 5]),
+                               ('string', 'x'), ('params-map', [0, 1, 'f', {'n': 5}]), ('params-int', [0, 1, 'f', 5]), ('name-int', [0, 1, 5, []]),
+                               ('name-nil', [0, 1, None, []]), ('name-list', [0, 1, ['f'], []]), ('error-map', [0, 1, {'faultcode': 'x'}, []])]:
+                out.append(('rpc ' + label, {}, msgpack.packb(doc, use_bin_type=True)))
+        if fam.kind == 'dict' and fam.name.startswith('yaml'):
+            out.append(('yaml 5000-digit integer', {}, b'f: {n: ' + b'9' * 5000 + b'}'))
+            out.append(('yaml tagged sequence', {}, b'f: {c: {s: !!python/unicode [a]}, n: 5}'))
+            out.append(('yaml tagged mapping', {}, b'f: {c: {s: !!python/unicode {a: b}}, n: 5}'))
+            out.append(('yaml python object', {}, b'f: {c: {s: !!python/object/apply:os.getcwd []}, n: 5}'))
+            out.append(('yaml alias bomb', {}, b'a: &a [x,x,x,x,x,x,x,x,x]\nb: &b [*a,*a,*a,*a,*a,*a,*a,*a,*a]\nc: &c [*b,*b,*b,*b,*b,*b,*b,*b,*b]\nf: {c: {s: *c}, n: 5}'))
+            out.append(('yaml merge key', {}, b'base: &b {i: 1}\nf: {c: {<<: *b, s: x}, n: 5}'))
         if fam.kind == 'dict' and fam.name.startswith('msgpack'):
             import msgpack
             out.append(('badutf8 method key', {}, msgpack.packb({b'\xff\xfe': {}}, use_bin_type=True)))
@@ -330,6 +349,11 @@ def fault_doc(fam, body):
         if fam.out == 'httprpc':
             code, sep, msg = body.decode('utf8').partition('\n\n')
             return bool(sep), code.split('.')
+        if fam.out == 'mprpc':
+            import msgpack
+            doc = msgpack.unpackb(body, raw=False, strict_map_key=False)
+            doc = doc[2]
+            return isinstance(doc.get('faultstring'), str), doc['faultcode'].split('.')
         if fam.out in ('json', 'http', 'json_w'):
             doc = json.loads(body.decode('utf8'))
         elif fam.out in ('yaml', 'yaml_w'):
@@ -405,7 +429,7 @@ def process_probes(ctx):
     for fam, label, body in [('yaml', 'deep[100000', "b'[' * 100000"), ('yaml', 'deep{100000', "b'{a: ' * 100000"),
                              ('yaml_w', 'deep[100000', "b'[' * 100000"),
                              ('json', 'deep[1000000', "b'[' * 1000000"), ('msgpack', 'deep[1000000', "b'\\x91' * 1000000"),
-                             ('xml', 'deep<1000000', "b'<a>' * 1000000"), ('soap11', 'deep<1000000', "b'<a>' * 1000000")]:
+                             ('xml', 'deep<1000000', "b'<a>' * 1000000"), ('soap11', 'deep<1000000', "b'<a>' * 1000000")][:(3 if ctx.quick else 99)]:
         code = PROBE % {'verif': core.VERIF, 'fam': fam, 'body': body}
         p = subprocess.run([sys.executable, '-c', code], stdout=subprocess.PIPE, stderr=subprocess.PIPE, timeout=600,
                            env=dict(os.environ, PYTHONHASHSEED='0'))
